@@ -483,8 +483,18 @@ func makeOptionalPtrDecoder(typ reflect.Type) (decoder, error) {
 	if err != nil {
 		return nil, err
 	}
+	// The empty value that stands for nil has one encoding: the empty string for types that
+	// encode as strings, the empty list for all others.
+	nilKind := List
+	if k := etype.Kind(); isUint(k) || k == reflect.String || k == reflect.Bool || etype == bigInt ||
+		((k == reflect.Array || k == reflect.Slice) && etype.Elem().Kind() == reflect.Uint8) {
+		nilKind = String
+	}
 	dec := func(s *Stream, val reflect.Value) (err error) {
 		kind, size, err := s.Kind()
+		if err == nil && size == 0 && kind != Byte && kind != nilKind {
+			return &decodeError{msg: fmt.Sprintf("wrong kind of empty value (got %v, want %v)", kind, nilKind), typ: typ}
+		}
 		if err != nil || size == 0 && kind != Byte {
 			// rearm s.Kind. This is important because the input
 			// position must advance to the next value even though
